@@ -25,7 +25,8 @@ MANIFEST = dict(
               "TLC trace validation (TraceJournal.tla)")
 
 DEVS = ["Dev_RevertVersionGapPanics", "Dev_UndoFirstEquityPanics", "Dev_UndoCodeDropsPreviousCode",
-        "Dev_UndoSuicideShallow", "Dev_UndoEventNoop", "Dev_MergeAcrossSuicide", "Dev_WorthlessSuicideDropped"]
+        "Dev_UndoSuicideShallow", "Dev_UndoEventNoop", "Dev_MergeAcrossSuicide", "Dev_WorthlessSuicideDropped",
+        "Dev_RevertedCreationLeavesEmptyRoot"]
 
 
 def setcfg(ctx, cfg, out, **kv):
